@@ -1,165 +1,133 @@
 package c10
 
 import (
-	"bytes"
-	"encoding/json"
 	"fmt"
-	"os"
-	"os/exec"
-	"strings"
 	"testing"
+	"time"
 
+	"go.sia.tech/core/consensus"
+	"go.sia.tech/core/types"
+	"pgregory.net/rapid"
+
+	"verif/harness/sim"
 	"verif/harness/stats"
 )
 
-// Deep nesting ("deep policies" of the property's quantifier).  Runaway recursion ends in
-// a Go fatal error (stack overflow), which cannot be recovered in-process, so every deep
-// input is executed by a child copy of this test binary (TestDeepChild) under the same
-// oracle; the parent turns a dead child into an ordinary failure with a replay.  The
-// process-wide stack limit is 64 MiB (main_test.go): an honest decoder needs a few
-// hundred KiB, an unbounded recursion over a 3 MiB input needs more than that.
-//
-// Enumerated completely (plain unit): kinds x depths below.
+// Deep histories. "Any block that passes validation can be applied and later reverted without panic" also speaks about
+// states the transaction-level units never reach: heights in the hundreds and thousands, where the pre-Oak retarget
+// (every 500 blocks), the Oak and ASIC eras and the monthly subsidy heights lie. This unit walks up to 1100 empty
+// blocks on a generated network under a timestamp regime per stretch (on schedule, the minimum the median rule allows
+// - all blocks of a stretch may carry one and the same timestamp -, slow, jittering), validates every block, applies
+// it, and reverts and re-applies some: nothing may panic, and a block built by the honest miner must be accepted.
 
-// DeepCase names one deterministic deep input.
+// DeepCase is a network, its genesis block and a timestamp regime per block.
 type DeepCase struct {
-	Kind  string `json:"kind"`
-	Depth int    `json:"depth"`
+	Net     *consensus.Network `json:"net"`
+	Genesis types.Block        `json:"genesis"`
+	Modes   []uint8            `json:"modes"`  // per block: 0 schedule, 1 minimum allowed, 2 parent + jitter
+	Jitter  []int32            `json:"jitter"` // seconds, for mode 2
+	V2      []bool             `json:"v2"`     // use the v2 block format where it is optional
 }
 
-var deepKinds = []string{"bin:types.SpendPolicy", "bin:types.SatisfiedPolicy", "bin:types.V2SiacoinInput", "parse:types.ParseSpendPolicy",
-	"json:types.SpendPolicy", "json:types.SatisfiedPolicy", "json:types.V2Transaction", "json:consensus.State"}
-
-func deepDepths(kind string) []int {
-	switch {
-	case strings.HasPrefix(kind, "bin:"):
-		// the decoder allows 32 levels below the root; far beyond it the input is megabytes long
-		return []int{1, 31, 32, 33, 34, 64, 255, 1000, 65536, 1 << 20}
-	case strings.HasPrefix(kind, "parse:"):
-		return []int{1, 32, 33, 255, 1000, 20000} // the text parser has no depth limit: stack grows with the input
-	default:
-		return []int{1, 32, 33, 255, 1000, 3000, 3333, 3334, 5000, 20000} // encoding/json refuses documents deeper than 10000
-	}
-}
-
-// deepInput builds the input and the checker call for a case.
-func deepInput(c DeepCase) (run func(test string) error, size int, err error) {
-	d := c.Depth
-	switch {
-	case strings.HasPrefix(c.Kind, "bin:"):
-		// version 1, then d nested 1-of-1 thresholds (opcode 5, n, count) around above(0) (opcode 1 + uint64)
-		pol := []byte{1}
-		pol = append(pol, bytes.Repeat([]byte{5, 1, 1}, d)...)
-		pol = append(pol, 1, 0, 0, 0, 0, 0, 0, 0, 0)
-		var in []byte
-		switch c.Kind {
-		case "bin:types.SpendPolicy":
-			in = pol
-		case "bin:types.SatisfiedPolicy":
-			in = append(pol, make([]byte, 16)...) // no signatures, no preimages
-		case "bin:types.V2SiacoinInput":
-			in = append(make([]byte, 8+8+32+16+32+8), pol...) // parent element with an empty proof
-			in = append(in, make([]byte, 16)...)
-		default:
-			return nil, 0, fmt.Errorf("unknown kind %q", c.Kind)
+func drawDeep(t *rapid.T) DeepCase {
+	net, genesis := sim.GenNetwork(t, sim.NetOpts{MaxForkHeight: rapid.SampledFrom([]int{520, 640, 1100}).Draw(t, "forkSpan")})
+	// the proof-of-work eras are laid out explicitly (integer generators favour small values, which would put every fork
+	// in the first few dozen blocks): the Oak fork around the 500-block retarget boundaries, the later forks behind it
+	step := func(name string) uint64 { return uint64(rapid.SampledFrom([]int{0, 1, 50, 200, 400}).Draw(t, name)) }
+	net.HardforkOak.Height = uint64(rapid.SampledFrom([]int{0, 3, 499, 500, 501, 750, 1000, 1001, 1100}).Draw(t, "oak"))
+	net.HardforkOak.FixHeight = net.HardforkOak.Height + step("oakFix")
+	net.HardforkASIC.Height = net.HardforkOak.FixHeight + step("asic")
+	net.HardforkFoundation.Height = net.HardforkASIC.Height + step("foundation")
+	net.HardforkV2.AllowHeight = net.HardforkFoundation.Height + step("allow")
+	net.HardforkV2.RequireHeight = max(net.HardforkV2.AllowHeight+step("require"), 1)
+	net.HardforkV2.FinalCutHeight = net.HardforkV2.RequireHeight + step("finalCut")
+	n := rapid.SampledFrom([]int{505, 520, 760, 1010, 1100}).Draw(t, "blocks")
+	c := DeepCase{Net: net, Genesis: genesis}
+	mode, left := uint8(0), 0
+	for i := 0; i < n; i++ {
+		if left == 0 {
+			mode = uint8(rapid.SampledFrom([]int{0, 1, 1, 2}).Draw(t, "mode"))
+			left = rapid.IntRange(1, 600).Draw(t, "stretch")
 		}
-		dc := DecodeCase{Entry: strings.TrimPrefix(c.Kind, "bin:"), Input: hexEncode(in), Ops: []string{fmt.Sprintf("deep*%d", d)}}
-		return func(test string) error { return checkDecodeAs(test, dc) }, len(in), nil
-	case c.Kind == "parse:types.ParseSpendPolicy":
-		in := strings.Repeat("thresh(1,[", d) + "above(0)" + strings.Repeat("])", d)
-		tc := newTextCase(c.Kind, []byte(in), true, []string{fmt.Sprintf("deep*%d", d)})
-		return func(test string) error { return checkTextAs(test, tc) }, len(in), nil
-	case strings.HasPrefix(c.Kind, "json:"):
-		pol := strings.Repeat(`{"type":"thresh","policy":{"n":1,"of":[`, d) + `{"type":"above","policy":0}` + strings.Repeat(`]}}`, d)
-		var in string
-		switch c.Kind {
-		case "json:types.SpendPolicy":
-			in = pol
-		case "json:types.SatisfiedPolicy":
-			in = `{"policy":` + pol + `}`
-		case "json:types.V2Transaction":
-			in = `{"siacoinInputs":[{"satisfiedPolicy":{"policy":` + pol + `}}]}`
-		case "json:consensus.State":
-			in = strings.Repeat("[", d) + strings.Repeat("]", d)
-		default:
-			return nil, 0, fmt.Errorf("unknown kind %q", c.Kind)
-		}
-		tc := newTextCase(c.Kind, []byte(in), true, []string{fmt.Sprintf("deep*%d", d)})
-		return func(test string) error { return checkTextAs(test, tc) }, len(in), nil
+		left--
+		c.Modes = append(c.Modes, mode)
+		c.Jitter = append(c.Jitter, int32(rapid.IntRange(-3, 4000).Draw(t, "jitter")))
+		c.V2 = append(c.V2, rapid.Bool().Draw(t, "v2fmt"))
 	}
-	return nil, 0, fmt.Errorf("unknown kind %q", c.Kind)
+	return c
 }
 
-const deepChildEnv = "C10_DEEP_CASE"
-
-// checkDeep runs the case in a child process and reports the child's verdict.
 func checkDeep(c DeepCase) error {
-	_, size, err := deepInput(c)
+	rec := stats.G()
+	if c.Net == nil || len(c.Modes) != len(c.Jitter) || len(c.Modes) != len(c.V2) {
+		return stats.Failf("", "harness: malformed deep case")
+	}
+	ch, _, err := sim.NewChain(c.Net, c.Genesis)
 	if err != nil {
-		return stats.Failf("", "harness: %v", err)
+		return stats.Failf("", "harness: genesis: %v", err)
 	}
-	cb, _ := json.Marshal(c)
-	cmd := exec.Command(os.Args[0], "-test.run", "^TestDeepChild$", "-test.timeout", "300s")
-	for _, kv := range os.Environ() {
-		if k := strings.SplitN(kv, "=", 2)[0]; k == "VERIF_STATS" || k == "VERIF_REPLAY_OUT" || k == "VERIF_JOURNAL" || k == "VERIF_REPLAY" {
-			continue
+	cs := ch.Tip()
+	stamps := []time.Time{c.Genesis.Timestamp} // by height
+	retargets, reverts := 0, 0
+	guard := func(what string, h uint64, f func()) error {
+		if p, st := stats.NoPanic(f); p != nil {
+			return stats.Failf("C10/deep/"+what, "%s of the block at height %d (a block the honest miner built and validation accepted) panicked: %v\n%s", what, h, p, st)
 		}
-		cmd.Env = append(cmd.Env, kv)
-	}
-	cmd.Env = append(cmd.Env, deepChildEnv+"="+string(cb))
-	out, runErr := cmd.CombinedOutput()
-	fp := stats.FP("deep", c.Kind, c.Depth)
-	if runErr == nil && bytes.Contains(out, []byte("C10-DEEP-OK")) {
-		labels := []string{"deep:" + c.Kind}
-		if i := bytes.Index(out, []byte("C10-DEEP-LABELS ")); i >= 0 {
-			labels = append(labels, strings.Fields(strings.SplitN(string(out[i+len("C10-DEEP-LABELS "):]), "\n", 2)[0])...)
-		}
-		stats.G().Case(fp, true, labels...)
 		return nil
 	}
-	tail := string(out)
-	if i := strings.Index(tail, "fatal error:"); i >= 0 {
-		tail = tail[i:]
-	}
-	if len(tail) > 3000 {
-		tail = tail[:3000]
-	}
-	return stats.Failf("C10/deep/"+c.Kind, "%s nested %d deep (%d bytes): the child process executing it failed (%v):\n%s", c.Kind, c.Depth, size, runErr, tail)
-}
-
-// TestDeep enumerates kinds x depths (sharded).
-func TestDeep(t *testing.T) {
-	idx, n := stats.Shard()
-	k := 0
-	for _, kind := range deepKinds {
-		for _, d := range deepDepths(kind) {
-			if k++; k%n != idx {
-				continue
-			}
-			stats.Check(t, DeepCase{Kind: kind, Depth: d}, checkDeep)
+	for i := range c.Modes {
+		child := cs.Index.Height + 1
+		blk := types.Block{Timestamp: sim.NextTimestamp(cs, int(c.Modes[i]), int64(c.Jitter[i]))}
+		if child >= c.Net.HardforkV2.RequireHeight || (c.V2[i] && child >= c.Net.HardforkV2.AllowHeight) {
+			blk.V2 = &types.V2BlockData{}
 		}
+		if err := sim.Seal(cs, &blk, types.Address{0xD0}); err != nil {
+			break // the simulator cannot mine this target: the history ends here
+		}
+		var verr error
+		if err := guard("validate", child, func() { verr = consensus.ValidateBlock(cs, blk, consensus.V1BlockSupplement{}) }); err != nil {
+			return err
+		}
+		if verr != nil {
+			return stats.Failf("C10/deep/honest-rejected", "empty block at height %d (timestamp regime %d) built on the tip is rejected: %v", child, c.Modes[i], verr)
+		}
+		// what a node supplies: the timestamp of the ancestor 1000 blocks before the parent (genesis for shorter chains)
+		anc := 0
+		if parent := int(child) - 1; parent > 1000 {
+			anc = parent - 1000
+		}
+		target := stamps[anc]
+		var next consensus.State
+		if err := guard("apply", child, func() { next, _ = consensus.ApplyBlock(cs, blk, consensus.V1BlockSupplement{}, target) }); err != nil {
+			return err
+		}
+		if i%97 == 96 || child%500 <= 1 {
+			if err := guard("revert", child, func() { _ = consensus.RevertBlock(cs, blk, consensus.V1BlockSupplement{}) }); err != nil {
+				return err
+			}
+			var again consensus.State
+			if err := guard("re-apply", child, func() { again, _ = consensus.ApplyBlock(cs, blk, consensus.V1BlockSupplement{}, target) }); err != nil {
+				return err
+			}
+			if string(sim.StateBytes(again)) != string(sim.StateBytes(next)) {
+				return stats.Failf("C10/deep/re-apply", "re-applying the block at height %d after reverting it gives a different state", child)
+			}
+			reverts++
+		}
+		if child%500 == 0 && child <= c.Net.HardforkOak.Height {
+			retargets++
+		}
+		stamps = append(stamps, blk.Timestamp)
+		cs = next
 	}
+	labels := []string{fmt.Sprintf("deep:height>=%d", cs.Index.Height/250*250)}
+	if retargets > 0 {
+		labels = append(labels, "deep:pre-oak-retarget-block-applied")
+	}
+	rec.Case(stats.FP("deep", cs.Index.ID[:]), cs.Index.Height >= 500, labels...)
+	rec.Extra("deep_blocks_applied", cs.Index.Height)
+	return nil
 }
 
-// TestDeepChild is the child side: it runs one case in-process under the oracle.
-func TestDeepChild(t *testing.T) {
-	raw := os.Getenv(deepChildEnv)
-	if raw == "" {
-		t.Skip("only run as a child of TestDeep")
-	}
-	var c DeepCase
-	if err := json.Unmarshal([]byte(raw), &c); err != nil {
-		t.Fatalf("bad case: %v", err)
-	}
-	run, _, err := deepInput(c)
-	if err != nil {
-		t.Fatal(err)
-	}
-	if err := stats.Safe("", func() error { return run("TestDeep") }); err != nil {
-		t.Fatalf("%v", err)
-	}
-	fmt.Println("C10-DEEP-OK")
-}
-
-// TestReplayDeep feeds a saved case to the checker.
+func TestDeep(t *testing.T)       { stats.Prop(t, drawDeep, checkDeep) }
 func TestReplayDeep(t *testing.T) { stats.Replay(t, "TestDeep", checkDeep) }
